@@ -7,7 +7,7 @@ REPO = os.environ.get("VERIF_REPO", "/repo")
 COQ = os.path.join(VERIF, "coq")
 BUILD = os.path.join(VERIF, "build")
 BIN = os.path.join(BUILD, "bin")
-TUNER_COPY = "/var/tmp/chess3-verif-tuner"
+TUNER_COPY = "/var/tmp/chess3-verif-tuner-" + hashlib.sha256(VERIF.encode()).hexdigest()[:10]
 FORBIDDEN = re.compile(
     r"\b(Admitted|admit|Axiom|Axioms|Parameter|Parameters|Conjecture|Conjectures|Admit Obligations|"
     r"Unset Guard Checking|Unset Positivity Checking|Unset Universe Checking|bypass_check|"
@@ -71,10 +71,8 @@ def build_go():
     try:
         h = os.path.join(VERIF, "harness")
         shutil.copy(os.path.join(REPO, "go.sum"), os.path.join(h, "go.sum"))
-        if REPO != "/repo":
-            # harness go.mod pins /repo; allow an alternative tree for seeded-change experiments
-            mod = open(os.path.join(h, "go.mod")).read()
-            raise BuildError("go", "VERIF_REPO other than /repo is not supported: " + REPO)
+        with open(os.path.join(h, "go.mod"), "w") as f:
+            f.write(open(os.path.join(h, "go.mod.in")).read().replace("@TUNER@", TUNER_COPY))
         for tool in ("h", "gen"):
             rc, out = sh(["go", "build", "-tags", "verif", "-o", os.path.join(BIN, tool), "./cmd/" + tool],
                          cwd=h, timeout=900)
